@@ -35,11 +35,11 @@ def mesh_2d(et: str, a=2.0, b=1.0, h=0.5, polygon=None):
     return Mesher().Mesh_2D(dom, [], ElemType(et), isOrganised=et in QUAD)
 
 
-def mesh_3d(et: str, a=2.0, b=1.0, c=1.5, h=1.0, layers=2):
+def mesh_3d(et: str, a=2.0, b=1.0, c=1.5, h=1.0, layers=2, organised=None):
     dom = Domain(Point(0, 0), Point(a, b), h)
     if et in TETRA:
         return Mesher().Mesh_Extrude(dom, [], [0, 0, c], [], ElemType(et))
-    return Mesher().Mesh_Extrude(dom, [], [0, 0, c], [layers], ElemType(et), isOrganised=et in HEXA)
+    return Mesher().Mesh_Extrude(dom, [], [0, 0, c], [layers], ElemType(et), isOrganised=(et in HEXA) if organised is None else organised)
 
 
 def mesh_of(et: str, **kw):
